@@ -40,7 +40,7 @@ pub fn rid_of(id: assets_manager::ReloadId) -> u64 {
 }
 
 pub const VARIANTS_HOT: [&str; 2] = ["shared", "shared_any"];
-pub const VARIANTS_COLD: [&str; 6] = ["nohot", "nohot_any", "local", "local_any", "hot_unused", "coldsrc"];
+pub const VARIANTS_COLD: [&str; 7] = ["nohot", "nohot_any", "local", "local_any", "hot_unused", "coldsrc", "failcfg"];
 
 impl Front {
     /// `variant`: shared | shared_any | static | static_any (hot source, reloader)
@@ -69,6 +69,16 @@ impl Front {
                 src: src_hot,
                 name: variant,
             },
+            "failcfg" => {
+                // a source whose configure_hot_reloading fails after it kept the EventSender: no reloader
+                src_hot.st.lock().unwrap().fail_configure = true;
+                Front {
+                    cache: Cache::Shared(Box::new(AssetCache::with_source(src_hot.clone()))),
+                    any,
+                    src: src_hot,
+                    name: variant,
+                }
+            }
             "coldsrc" => Front {
                 cache: Cache::Shared(Box::new(AssetCache::with_source(src_cold.clone()))),
                 any,
